@@ -132,7 +132,8 @@ def run_property(prop_id, body, trace):
     import time as _time
 
     simclock.install()
-    simclock.set_now(simclock.DEFAULT_NOW)
+    sim_now = (trace.get("config") or {}).get("sim_now")
+    simclock.set_now(simclock.DEFAULT_NOW if sim_now is None else sim_now)
     reads0 = simclock.reads
     run = Run(trace)
     # the process environment is part of the trace: a time zone (with offset changes) for the whole run
